@@ -625,12 +625,14 @@ pub struct SendRun {
 }
 
 pub fn run_blocking_sender<T: Shape + ?Sized>(msgs: &[Value], script: Vec<POut>, maxlen: usize, budget: usize) -> Obs<SendRun> {
-    run_sender::<T>(msgs, script, maxlen, budget, 0)
+    run_sender::<T>(msgs, script, maxlen, budget, 0, &[])
 }
 
 /// `asyncv`: use the async Sender over the same scripted sink (it never answers Pending).
-pub fn run_sender<T: Shape + ?Sized>(msgs: &[Value], script: Vec<POut>, maxlen: usize, budget: usize, mode: u8) -> Obs<SendRun> {
+/// `abandon`: indices of messages that are emplaced under a SendGuard which is then dropped without `send()`.
+pub fn run_sender<T: Shape + ?Sized>(msgs: &[Value], script: Vec<POut>, maxlen: usize, budget: usize, mode: u8, abandon: &[usize]) -> Obs<SendRun> {
     let asyncv = mode > 0;
+    let abandon = abandon.to_vec();
     let pipe = ScriptSink::new(script, budget);
     let st = pipe.st.clone();
     let empty = || SendRun { rets: vec![], real_msgs: vec![], sink: vec![], over_budget: false, calls_per_send: vec![], sink_after: vec![], poisoned: false, trace: vec![] };
@@ -659,6 +661,20 @@ pub fn run_sender<T: Shape + ?Sized>(msgs: &[Value], script: Vec<POut>, maxlen: 
                     let mut stl = st2.borrow_mut();
                     drain_hooks_into(&mut stl.log);
                     stl.log.push(json!({"t": "emplaced", "e": {"ev": "emplaced", "offered": g.as_bytes()[..size.min(g.as_bytes().len())].to_vec(), "n": g.as_bytes().len()}}));
+                }
+                if abandon.contains(&i) {
+                    drop(g);
+                    let mut stl = st2.borrow_mut();
+                    drain_hooks_into(&mut stl.log);
+                    stl.log.push(json!({"t": "ret", "e": {"ev": "dropped", "offered": [], "n": 0}}));
+                    drop(stl);
+                    let c1 = st2.borrow().calls;
+                    let mut run = sh.borrow_mut();
+                    run.calls_per_send.push(c1 - c0);
+                    run.sink_after.push(st2.borrow().sink.len());
+                    run.rets.push("dropped".into());
+                    run.poisoned = tx.verif_buffer().verif_state().3;
+                    continue;
                 }
                 let r = g.send();
                 {
@@ -696,6 +712,20 @@ pub fn run_sender<T: Shape + ?Sized>(msgs: &[Value], script: Vec<POut>, maxlen: 
                         let mut stl = st2.borrow_mut();
                         drain_hooks_into(&mut stl.log);
                         stl.log.push(json!({"t": "emplaced", "e": {"ev": "emplaced", "offered": g.as_bytes()[..size.min(g.as_bytes().len())].to_vec(), "n": g.as_bytes().len()}}));
+                    }
+                    if abandon.contains(&i) {
+                        drop(g);
+                        let mut stl = st2.borrow_mut();
+                        drain_hooks_into(&mut stl.log);
+                        stl.log.push(json!({"t": "ret", "e": {"ev": "dropped", "offered": [], "n": 0}}));
+                        drop(stl);
+                        let c1 = st2.borrow().calls;
+                        let mut run = sh.borrow_mut();
+                        run.calls_per_send.push(c1 - c0);
+                        run.sink_after.push(st2.borrow().sink.len());
+                        run.rets.push("dropped".into());
+                        run.poisoned = tx.verif_buffer().verif_state().3;
+                        continue;
                     }
                     let r = g.send().await;
                     {
@@ -737,13 +767,15 @@ pub fn run_sender<T: Shape + ?Sized>(msgs: &[Value], script: Vec<POut>, maxlen: 
     }
 }
 
-fn script_from_send_path(path: &[Value]) -> (Vec<POut>, bool, bool) {
+fn script_from_send_path(path: &[Value]) -> (Vec<POut>, bool, bool, Vec<usize>) {
     let mut script = vec![];
+    let mut abandon = vec![];
     let (mut faults, mut transient0) = (false, false);
     for ev in path {
         let n = ev["n"].as_u64().unwrap_or(0) as usize;
         match ev["e"].as_str().unwrap_or("") {
             "w" => script.push(POut::Data(n)),
+            "abandon" => abandon.push((ev["m"].as_u64().unwrap_or(1) as usize).saturating_sub(1)),
             "zero" => {
                 faults = true;
                 if n == 1 { script.push(POut::StuckZero) } else if n == 0 { script.push(POut::Zero) }
@@ -759,7 +791,7 @@ fn script_from_send_path(path: &[Value]) -> (Vec<POut>, bool, bool) {
             _ => {}
         }
     }
-    (script, faults, transient0)
+    (script, faults, transient0, abandon)
 }
 
 /// SinkFramed on the real run: whole messages (of the sends that returned ok), at most one partial
@@ -774,7 +806,11 @@ pub fn sink_framed(run: &SendRun) -> Result<(), String> {
         if partial_seen && !added.is_empty() {
             return Err(format!("send {} added {} bytes after a partial message", i, added.len()));
         }
-        if r == "ok" {
+        if r == "dropped" {
+            if !added.is_empty() {
+                return Err(format!("message {} was abandoned (guard dropped without send) but {} bytes reached the sink", i, added.len()));
+            }
+        } else if r == "ok" {
             if added != &m[..] {
                 return Err(format!("send {} returned ok but the sink got {} of its {} bytes", i, added.len(), m.len()));
             }
@@ -806,10 +842,13 @@ impl<'a> Visitor for IoSendVisitor<'a> {
         let imgs = arr(&header["imgs"]);
         let maxlen = header["maxlen"].as_u64().unwrap_or(0) as usize;
         let path = arr(&case["path"]);
-        let (script, faults, transient0) = script_from_send_path(path);
+        let (script, faults, transient0, abandon) = script_from_send_path(path);
         let exp_rets: Vec<String> = arr(&case["rets"]).iter().map(|r| r.as_str().unwrap_or("").to_string()).collect();
         let class = format!("iosend.{}{}", case["final"].as_str().unwrap_or(""), if faults { ".faults" } else { "" });
         out.count(&class);
+        if !abandon.is_empty() {
+            out.count("iosend.abandon");
+        }
         out.sample(&class, &json!({"header": header, "path": case["path"], "rets": case["rets"], "final": case["final"]}));
         let p = if faults { "C09" } else { "C07" };
         if !has(p) {
@@ -820,7 +859,7 @@ impl<'a> Visitor for IoSendVisitor<'a> {
         let budget = 4 * (total + msgs.len() + 4);
         for mode in [0u8, 1, 2] {
         let variant = ["send", "async-send", "async-send(pending-first)"][mode as usize];
-        let run = match run_sender::<T>(msgs, script.clone(), maxlen, budget, mode) {
+        let run = match run_sender::<T>(msgs, script.clone(), maxlen, budget, mode, &abandon) {
             Obs::Panic(m) => {
                 if m.contains(BUDGET) {
                     out.viol(p, "no-return", id, variant, format!("send did not return within {} pipe calls under {:?}", budget, kinds_path(path)));
